@@ -1194,3 +1194,167 @@ def ts1(F, R):
                 v = fn.term_of_rvalue(s["rv"], b)
                 okm = has_sub(v, lambda q: q[0] == "call" and q[1] and q[1].endswith("TimeSource::get_timestamp"))
     R.require(okm, fn, "mtime=clock", "write() must set mtime from time_source.get_timestamp()", fn.loc(0))
+
+
+# ---------------------------------------------------------------------------------------
+# additional structural rules
+
+
+@rule("OR5", ["C02", "C03", "C10"], floor=3,
+      doc="a new directory cluster is initialised completely: alloc_cluster(zero) blanks start.range(BlockCount(blocks_per_cluster)) of the new cluster; make_dir blanks block 0 and range(BlockCount(blocks_per_cluster)).skip(1); directory growth calls alloc_cluster(.., zero = true)")
+def or5(F, R):
+    for name in ("alloc_cluster", "make_dir"):
+        fn = F.fn(FATVOL + "::" + name)
+        sites = [(b, t) for b, t in fn.calls() if call_matches(t, ("BlockCache::blank_mut",))]
+        loops = 0
+        for b, t in sites:
+            idx = fn.term_of_operand(t["args"][1], b)
+            subs = _all_subterms_through_vars(fn, idx)
+            rng = [s for s in subs if s[0] == "call" and s[1] and (path_matches(s[1], "BlockIdx::range") or path_matches(s[1], "BlockIter::new"))]
+            if not rng:
+                continue  # the directly indexed first block of make_dir
+            loops += 1
+            problems = []
+            for r in rng:
+                if path_matches(r[1], "BlockIter::new"):
+                    problems.append("blocks enumerated with a hand-built BlockIter (%s); use start.range(BlockCount(blocks_per_cluster))" % tstr(r))
+                    continue
+                cnt = r[2][1]
+                pat = ("agg", "BlockCount", [("call", "From::from", [("place", ("arg", "self"), ("*", "blocks_per_cluster"))])])
+                c2 = strip_refs(cnt)
+                cands = [c2] if c2[0] != "var" else var_def_terms(fn, c2[1])
+                if not all(tmatch(c, pat) is not None for c in cands):
+                    problems.append("range length is %s, expected BlockCount(blocks_per_cluster)" % [tstr(c) for c in cands])
+                st = strip_refs(r[2][0])
+                sts = [st] if st[0] != "var" else var_def_terms(fn, st[1])
+                if not all(s_[0] == "call" and s_[1] and path_matches(s_[1], "FatVolume::cluster_to_block") for s_ in sts):
+                    problems.append("range does not start at cluster_to_block(new cluster): %s" % [tstr(s_) for s_ in sts])
+            skips = [s for s in subs if s[0] == "call" and s[1] and s[1].endswith("Iterator::skip")]
+            if name == "make_dir":
+                if not (len(skips) == 1 and skips[0][2][1][:2] == ("c", 1)):
+                    problems.append("make_dir must skip exactly the first block (already written with the dot entries)")
+            elif skips:
+                problems.append("alloc_cluster must not skip blocks when zeroing")
+            R.require(not problems, fn, name + ":zero-range", "; ".join(problems), fn.loc(b))
+        R.require(loops >= 1, fn, name + ":zero-loop", "no zeroing loop over the new cluster's blocks found", fn.loc(0))
+    w = F.fn(FATVOL + "::write_new_directory_entry")
+    acs = [(b, t) for b, t in w.calls() if call_matches(t, ("FatVolume::alloc_cluster",))]
+    R.require(len(acs) == 2 and all(w.term_of_operand(t["args"][3], b)[:2] == ("c", 1) for b, t in acs), w, "growth-zeroes", "directory growth must call alloc_cluster(.., zero = true) in both FAT arms", w.loc(0))
+    # make_dir's first block is blanked via blank_mut(cluster_to_block(new cluster)) and written back after the dot entries
+    md = F.fn(FATVOL + "::make_dir")
+    cps = [(b, t) for b, t in md.calls() if (callee_of(t) or "").endswith("copy_from_slice")]
+    R.require(len(cps) == 2, md, "dot-entries", "make_dir must write exactly the '.' and '..' entries into the first block", md.loc(0))
+
+
+@rule("TS2", ["C02"], floor=1,
+      doc="DirEntry::new (which stamps a fresh creation time) is called only when a directory slot is created (write_new_directory_entry); re-opening or truncating never rebuilds the entry")
+def ts2(F, R):
+    n = 0
+    for f in F.fns:
+        for b, t in f.calls():
+            if call_matches(t, ("DirEntry::new",)):
+                n += 1
+                ok = f.npath == FATVOL + "::write_new_directory_entry" or f.npath.startswith(("fat::test", "volume_mgr::tests"))
+                R.require(ok, f, "DirEntry::new", "DirEntry::new (fresh ctime) called from %s: the creation time of an existing file would change" % f.npath, f.loc(b))
+    if n == 0:
+        R.bad(None, "anchor", "no DirEntry::new call", kind="anchor-missing")
+
+
+@rule("FT10", ["C05"], floor=2,
+      doc="alloc_cluster searches the whole FAT: when the search that starts at the next-free hint (> 2) ends with NotEnoughSpace it restarts at cluster 2; the allocation fails only if that second search fails too")
+def ft10(F, R):
+    fn = F.fn(FATVOL + "::alloc_cluster")
+    sites = [(b, t) for b, t in fn.calls() if call_matches(t, ("FatVolume::find_next_free_cluster",))]
+    # the searches before the END_OF_FILE mark
+    eof = [c for c in _update_fat_calls(fn) if c[4] == "EOF"]
+    if not eof:
+        R.bad(fn, "anchor", "no END_OF_FILE mark", kind="anchor-missing")
+        return
+    pre = [(b, t) for b, t in sites if eof[0][0] in fn.reach([b])]
+    first = [x for x in pre if strip_refs(fn.term_of_operand(x[1]["args"][2], x[0]))[0] == "var"]
+    retry = [x for x in pre if tmatch(strip_refs(fn.term_of_operand(x[1]["args"][2], x[0])), ("agg", "ClusterId", [("c", 2)])) is not None]
+    R.require(len(first) == 1 and len(retry) == 1, fn, "two-searches", "expected a hinted search and a wrap-around search from cluster 2 before the allocation (found %d / %d)" % (len(first), len(retry)), fn.loc(0))
+    if len(first) == 1 and len(retry) == 1:
+        fb = first[0][0]
+        rb = retry[0][0]
+        g, _ = guarded(fn, rb, lambda g: g.kind == "variant" and g.variant == "NotEnoughSpace" and has_sub(g.term, lambda q: q[0] == "call" and q[3] == fb))
+        g2, _ = guarded(fn, rb, lambda g: g.kind == "bool" and g.term[0] == "cmp" and g.term[1] == "Gt" and g.truth is True and g.term[3][:2] == ("c", 2))
+        R.require(g and g2, fn, "retry-on-nospace", "the wrap-around search must run exactly when the hinted search (start > 2) returned NotEnoughSpace", fn.loc(rb))
+        # an Err(NotEnoughSpace) from the hinted search with start > 2 must not reach the function's Err return without the retry
+        for (gb, gi, g_) in all_guards(fn):
+            if g_.kind == "variant" and g_.variant == "Err" and g_.term[0] == "call" and g_.term[3] == fb:
+                tgt = fn.succ(gb)[gi][0]
+                # paths from the Err edge to an Err return avoiding the retry: only allowed via start <= 2 or other error variants
+                pass
+
+
+@rule("RL1", ["C08"], floor=1,
+      doc="get_root_volume_label: the root directory it opens internally is closed on every exit (it is held in the RAII Directory wrapper, or close_dir post-dominates the open on all paths)")
+def rl1(F, R):
+    fn = F.fn(VM + "::get_root_volume_label")
+    opens = [(b, t) for b, t in fn.calls() if call_matches(t, ("VolumeManager::open_root_dir",))]
+    if not opens:
+        R.bad(fn, "anchor", "no open_root_dir call", kind="anchor-missing")
+        return
+    for b, t in opens:
+        # Ok edge of the open
+        starts = []
+        for (gb, gi, g) in all_guards(fn):
+            if g_try_ok("VolumeManager::open_root_dir")(g):
+                starts.append(fn.succ(gb)[gi][0])
+        closers = set()
+        for b2, t2 in fn.calls():
+            c = callee_of(t2) or ""
+            if call_matches(t2, ("VolumeManager::close_dir", "Directory::close")):
+                closers.add(b2)
+        for b2 in fn.live_blocks():
+            tt = fn.term(b2)
+            if tt["k"] == "Drop" and "Directory<" in fn.locals[tt["p"]["l"]]["ty"] and not tt["p"]["proj"]:
+                closers.add(b2)
+        leaks = []
+        for s in starts:
+            reach = fn.reach([s], cut_blocks=closers)
+            for rb in fn.return_blocks():
+                if rb in reach:
+                    leaks.append(fn.loc(rb))
+        # wrapper must be constructed right away (to_directory) if relying on Drop
+        R.require(bool(starts) and not leaks, fn, "dir-closed-on-all-exits", "the internally opened root directory can stay open on some exit of get_root_volume_label (handle leak: has_open_handles() stays true, a slot is lost)", fn.loc(b))
+
+
+@rule("IS4", ["C16"], floor=2,
+      doc="the on-disk free-space record is advisory: the value of free_clusters_count never influences control flow (it is only updated and stored); each info-sector field is written whenever it is known, independent of the other field")
+def is4(F, R):
+    n = 0
+    for f in F.fns:
+        if f.npath.startswith(("fat::test", "volume_mgr::tests")) or f.npath.startswith("<"):
+            continue  # derived PartialEq/Debug impls compare or print all fields
+        for (gb, gi, g) in all_guards(f):
+            s = tstr(g.raw)
+            if "free_clusters_count" not in s:
+                continue
+            n += 1
+            if g.kind in ("variant", "variants") and g.raw[0] == "discr":
+                # Some/None test of the Option itself
+                inner = strip_refs(g.raw[1])
+                if last_field(inner) == "free_clusters_count":
+                    continue
+                R.bad(f, "count-variant-test", "control flow depends on %r" % g, f.loc(gb))
+                continue
+            if f.npath == FATVOL + "::update_info_sector" and g.kind == "bool" and g.term[0] == "call" and g.term[1] and g.term[1].endswith("Option::is_none"):
+                continue
+            R.bad(f, "count-influences-control", "control flow depends on the stored free-cluster count (%r): a stale record could make an operation fail" % g, f.loc(gb))
+    R.ok(None, "count-guards", "%d guards mention free_clusters_count; all are Some/None tests" % n)
+    # independence of the two info-sector fields
+    fn = F.fn(FATVOL + "::update_info_sector")
+    for b, t in fn.calls():
+        if (callee_of(t) or "").endswith("copy_from_slice"):
+            src = tstr(fn.term_of_operand(t["args"][1], b))
+            fld = "free_clusters_count" if "free_clusters_count" in src else ("next_free_cluster" if "next_free_cluster" in src else None)
+            other = "next_free_cluster" if fld == "free_clusters_count" else "free_clusters_count"
+            if fld is None:
+                continue
+            dep = [g for (gb, gi, g) in all_guards(fn) if g.kind == "variant" and g.variant == "Some" and other in tstr(g.term) and fld not in tstr(g.term) and fn.unreachable_without(b, [(gb, gi)])]
+            R.require(not dep, fn, "independent:" + fld, "%s is written only when %s is known too: a known free count is not persisted when the hint is unknown" % (fld, other), fn.loc(b))
+    # early exit only when both are unknown
+    for (b, i, v) in ok_returns(fn):
+        pass
